@@ -232,7 +232,7 @@ def project(events, run_index=0):
         kcap=oi("max_poll_grid_number"), expand=oi("search_mesh_expand"),
         incr=oi("search_mesh_increment"), stalliters=oi("tol_stall_iters"),
         k0=oi("init_mesh_size_integer"), pow2=(pmm == 2.0),
-        funevalstart=oi("fun_eval_start"),
+        funevalstart=oi("fun_eval_start"), minrefit=oi("min_refit_time"),
     )
     ev("Construct", outcome="ok", ncalls=cons_ev["ncalls"], consviol=cviol, cfg=cfg,
        lbI=[RU[i](lbI[i]) for i in range(D)], ubI=[RU[i](ubI[i]) for i in range(D)])
@@ -497,7 +497,7 @@ def project(events, run_index=0):
         elif t == "GPTrainSet":
             ev("GPTrainSet", site=e["site"], ntrain=e["ntrain"], nunlogged=e["n_unlogged"],
                nvalmis=e["n_valmis"], s2ok=e["s2_ok"], s2lenok=e["s2_len_ok"],
-               allused=bool(e.get("all_logged_used", True)))
+               allused=bool(e.get("all_logged_used", True)), refit=bool(e.get("refit", False)))
         elif t == "Neighbors":
             ev("Neighbors", site=e["site"], ntrain=e["ntrain"], want=e["want"], sortedok=e["sorted_ok"],
                nnearer=e["n_nearer_excluded"], nunmatched=e["n_unmatched"], ndup=e["n_dup_rows"])
@@ -559,7 +559,7 @@ def _i(v):
 def _empty_cfg(D):
     return dict(budget=0, maxiter=0, ktol=0, ntry=0, nfinal=0, accel=False, accelsteps=0,
                 completepoll=False, skippoll=False, locked=False, gnum=0, gmult=0, kcap=0,
-                expand=0, incr=0, stalliters=0, k0=0, pow2=True, funevalstart=0)
+                expand=0, incr=0, stalliters=0, k0=0, pow2=True, funevalstart=0, minrefit=0)
 
 
 def _logged_finite(final):
